@@ -351,6 +351,11 @@ func (g *xg) boolExpr(d int) string {
 	}
 	switch g.pick(12, "bk") {
 	case 0, 1:
+		if v, ok := g.someVar("Int", false); ok && g.chance(3, "eqops") {
+			// equal run-time operands (the variable may hold a big integer): the boundary of < <= > >=
+			g.feat("cmp_equal_operands")
+			return fmt.Sprintf("(%s %s %s)", v, cmpOps[g.pick(6, "cmp")], []string{v, "(" + v + " + 0)", "(" + v + " * 1)"}[g.pick(3, "eqform")])
+		}
 		return fmt.Sprintf("(%s %s %s)", g.intExpr(d-1), cmpOps[g.pick(6, "cmp")], g.intExpr(d-1))
 	case 2:
 		g.feat("floatcmp")
